@@ -269,6 +269,7 @@ func (c *c16Cfg) Run(op string) vh.Result {
 	out := []string{"cfgeval"}
 	var orc []string
 	seenCfg := map[uintptr]bool{}
+	var keepAlive []any
 	seenFac := map[uintptr]bool{}
 	for k, a := range f[2:] {
 		n, err := strconv.Atoi(a)
@@ -309,6 +310,9 @@ func (c *c16Cfg) Run(op string) vh.Result {
 		if c.dns.queries.Load() == q0 {
 			orc = append(orc, fmt.Sprintf("evaluation %d did not ask the resolver", k+1))
 		}
+		// keep every evaluated config (and with it its ConnFactory) alive until the op ends: the
+		// identity checks below compare addresses, and the address of a collected object may be reused
+		keepAlive = append(keepAlive, cfg)
 		cp := reflect.ValueOf(cfg).Pointer()
 		if seenCfg[cp] {
 			orc = append(orc, fmt.Sprintf("evaluation %d returned the same *client.Config as an earlier one", k+1))
@@ -324,6 +328,7 @@ func (c *c16Cfg) Run(op string) vh.Result {
 			seenFac[fp] = true
 		}
 	}
+	runtime.KeepAlive(keepAlive)
 	return vh.Result{Out: strings.Join(out, " "), NonTrivial: len(f) > 3, Oracle: orc}
 }
 
